@@ -168,7 +168,8 @@ def plant_select_from_repeat(g, form):
     elif variant == "sibling-repeat":
         vmin = "vmin" + u
         sel["c"]["choice_filter"] = flt + " and ${%s} > ${%s}" % (age, vmin)
-        form["nodes"] += [items] + top + [{"k": "r", "c": {"name": "visit" + u, "label": "V"}, "ch": [q(type="integer", name=vmin, label="M"), sel]}]
+        vname = g.pick(["visit" + u, rep + "_visit", rep + "_v"])     # a sibling whose path starts with the text of the choices repeat's path
+        form["nodes"] += [items] + top + [{"k": "r", "c": {"name": vname, "label": "V"}, "ch": [q(type="integer", name=vmin, label="M"), sel]}]
     else:
         items["ch"].append(sel)
         form["nodes"] += top + [items]
@@ -254,6 +255,19 @@ def evaluate(case) -> Outcome:
         return out
     if status == "rejected":
         out.label("outcome:rejected:" + common.err_class(res))
+        # the other direction of "refused when nothing carries the name": the refusal must be about a name the workbook really lacks,
+        # spelled as the author spelled it (names are case-sensitive)
+        m = re.search(r"replace (\$\{[^}]*\}) with the XPath to the survey element named '([^']*)'\. There is no survey element", str(res))
+        if m:
+            out.checked("C03.refusal-names-a-missing-name")
+            written = {nm for n, _ in model.walk(form["nodes"]) if n["k"] != "x" for k, v in n["c"].items() if k not in ("type", "name")
+                       for _, nm in model.refs_in(v)}
+            written |= {nm for n, _ in model.walk(form["nodes"]) if n["k"] != "x" for _, nm in model.refs_in(n["c"].get("type", ""))}
+            named = model.find_named(form)
+            if m.group(2) in named and m.group(2) != expect.build(form).name:
+                out.fail("C03.refusal-names-a-missing-name", "name-exists", f"refused: {res}; but a row is named {m.group(2)!r}")
+            elif m.group(2) not in written and m.group(2).lower() in {w.lower() for w in written}:
+                out.fail("C03.refusal-names-a-missing-name", "not-as-written", f"refused: {res}; the workbook never writes ${{{m.group(2)}}}")
         if case.get("layout"):
             out.fail("C03.layout-rejected", case["layout"][3], f"{case['layout']}: {res}")
         return out
